@@ -4,7 +4,7 @@
 From Coq Require Import ZArith NArith List Bool.
 Import ListNotations.
 From SV Require Import Common.Int32 C01mir.Syntax C01mir.Sem C01mir.TailRec C01mir.ConstParam
-  C01mir.ProofsSem C01mir.ProofsTailRec.
+  C01mir.ProofsSem C01mir.ProofsTailRec C01mir.ProofsConstParam C01mir.ProofsWitness.
 Open Scope Z_scope.
 
 (* ------------------------------------------------------------------------------------------------------------
@@ -44,6 +44,90 @@ Theorem C01mir_fuel_monotone :
     (n <= m)%nat -> sem w P f args n <> OutOfFuel -> sem w P f args m = sem w P f args n.
 Proof. exact sem_mono. Qed.
 
+(* the seeded variant C01-5 (a2.zip(a1) when both branches end in a tail call) is NOT behaviour preserving *)
+Theorem C01mir_tailrec_swapped_refuted :
+  exists (w : world) (tp : name -> name) (k : N) (P : program) (f : N) (args : list Z) (fuel : nat),
+    wf_tail_program tp k P = true /\
+    sem w P f args fuel <> OutOfFuel /\
+    sem w (tail_rec_program true tp k P) f args fuel <> sem w P f args fuel.
+Proof. exact tailrec_swapped_refuted. Qed.
+
+(* the hypothesis tail_ok (part of wf_tail) cannot be dropped: on MIR in which a self call without return collector
+   stands where the enclosing if-else assigns a literal other than what the function returns, the rewrite changes the
+   result (5 becomes 7).  The front end does not produce such MIR (see ProofsWitness.v); tail_ok is evaluated on every
+   real function that is rewritten. *)
+Theorem C01mir_tailrec_discard_refuted :
+  exists (w : world) (tp : name -> name) (k : N) (f : func) (args : list Z) (fuel : nat),
+    wf_func f = true /\
+    forallb (self_arity (f_name f) (length (f_params f))) (f_body f) = true /\
+    belowb k (binders_l (f_body f)) = true /\ nodupb (map tp (f_params f)) = true /\
+    tail_ok k f = false /\
+    sem w [f] (f_name f) args fuel = Done 5 [] /\
+    sem w [tail_rec_rewrite false tp k f] (f_name f) args fuel = Done 7 [].
+Proof. exact tailrec_discard_refuted. Qed.
+
+(* non-vacuity: g(a, b, n) with a tail call in both branches satisfies the hypothesis, is rewritten, and both
+   versions compute g(1, 5, 3) = 6 *)
+Example C01mir_tailrec_example :
+  wf_tail_program tp0 50%N g_prog = true /\
+  func_eqb (tail_rec_rewrite false tp0 50%N g_fn) g_fn = false /\
+  sem w0 g_prog 0%N [1; 5; 3] 20 = Done 6 [] /\
+  sem w0 (tail_rec_program false tp0 50%N g_prog) 0%N [1; 5; 3] 20 = Done 6 [].
+Proof. exact (conj g_wf (conj g_rewritten g_runs)). Qed.
+
+(* ------------------------------------------------------------------------------------------------------------
+   (B) mir_constant_param_elimination.rs.
+
+   For every program that satisfies wf_prog (function names and the parameters of a function pairwise different,
+   parameters never bound or assigned again, direct calls with the right number of arguments, no called variable
+   replaced by a constant) and every world whose closures denote functions named by a ClosureInit of the program or
+   external functions: a function all of whose parameters survive the stage (entry points have none; params_kept)
+   behaves after the stage exactly as before it - same outcome at the same fuel, OutOfFuel included (the stage keeps
+   the call structure, so no fuel relation is needed).  For the other functions the general statement is
+   ProofsConstParam.cp_crel: called with the surviving arguments they behave as the original called with arguments
+   that carry the constants the analysis found. *)
+
+Theorem C01mir_constparam_preserves :
+  forall (w : world) (P : program) (entry : N) (args : list Z) (fuel : nat),
+    wf_prog P = true -> closures_ok w P ->
+    params_kept (collect_all false P) entry = true ->
+    sem w (const_param_elim false P) entry args fuel = sem w P entry args fuel.
+Proof. exact constparam_preserves. Qed.
+
+(* the general statement, for every function of the program (the entry point `main` of a real program has one unused
+   parameter `_this` before this stage, which the stage drops): called with the surviving arguments (fk), the
+   rewritten function behaves as the original called with any arguments that carry the constants the analysis
+   found at the positions it replaces (args_ok; it also asks that no parameter state is Referenced - the state of a
+   used parameter of a function that has no call site at all) *)
+Theorem C01mir_constparam_preserves_general :
+  forall (w : world) (P : program) (g : N) (vs : list Z) (fuel : nat),
+    wf_prog P = true -> closures_ok w P ->
+    args_ok w (collect_all false P) g vs ->
+    sem w (const_param_elim false P) g (fk (collect_all false P) g vs) fuel = sem w P g vs fuel.
+Proof. exact constparam_preserves_general. Qed.
+
+(* the seeded variant C01-6 (a variable argument of a self call is not a use when it is ANY parameter) is NOT
+   behaviour preserving *)
+Theorem C01mir_constparam_anypos_refuted :
+  exists (w : world) (P : program) (entry : N) (args : list Z) (fuel : nat),
+    wf_prog P = true /\ closures_ok w P /\
+    params_kept (collect_all true P) entry = true /\
+    sem w (const_param_elim true P) entry args fuel <> sem w P entry args fuel.
+Proof. exact constparam_anypos_refuted. Qed.
+
+(* non-vacuity: h(k, d, x, n) called with k = 7 everywhere, d unused and only handed on: both disappear;
+   main computes 26 before and after *)
+Example C01mir_constparam_example :
+  wf_prog h_prog = true /\ closures_ok w0 h_prog /\
+  map f_params (const_param_elim false h_prog) = [[4; 5]%N; []] /\
+  sem w0 h_prog 1%N [] 10 = Done 26 [] /\ sem w0 (const_param_elim false h_prog) 1%N [] 10 = Done 26 [].
+Proof. exact (conj h_wf (conj (w0_closures h_prog) (conj (proj1 h_dropped) h_runs))). Qed.
+
 Print Assumptions C01mir_tailrec_preserves.
 Print Assumptions C01mir_tailrec_preserves_rel.
 Print Assumptions C01mir_fuel_monotone.
+Print Assumptions C01mir_tailrec_swapped_refuted.
+Print Assumptions C01mir_tailrec_discard_refuted.
+Print Assumptions C01mir_constparam_preserves.
+Print Assumptions C01mir_constparam_preserves_general.
+Print Assumptions C01mir_constparam_anypos_refuted.
